@@ -255,6 +255,20 @@ class BaseModel(SolverMixin, ModelInterface):
                 f'cannot exceed value of `max_iter` ({max_iter})'
             )
 
+        # Error if the period at `t` can't accommodate the model's lags and leads
+        # (equations would otherwise silently read, by negative/wrapped indexes,
+        # from the opposite end of the span)
+        t_position = t
+        if t_position < 0:
+            t_position += len(self.span)
+
+        if not self.lags <= t_position < len(self.span) - self.leads:
+            raise IndexError(
+                f'Position `t` ({t}) cannot accommodate the lags ({self.lags}) '
+                f'and leads ({self.leads}) of the model, '
+                f'given a span of {len(self.span)} period(s)'
+            )
+
         # Optionally copy initial values from another period
         if offset:
             t_check = t
